@@ -6,6 +6,7 @@ import Qv.Drv.C05
 import Qv.Drv.C09
 import Qv.Drv.C12
 import Qv.Drv.C02
+import Qv.Drv.C07
 /-! Line protocol: `<op> <json>` per line in, one JSON document per line out. -/
 open Lean
 
@@ -20,7 +21,9 @@ def handlers : List (String × (Json → Except String Json)) := [
   ("C09.permute", Qv.Drv.C09.permuteJ),
   ("C12.result", Qv.Drv.C12.result),
   ("C02.dims", Qv.Drv.C02.dims),
-  ("C02.matmul", Qv.Drv.C02.matmul)
+  ("C02.matmul", Qv.Drv.C02.matmul),
+  ("C07.super", Qv.Drv.C07.superJ),
+  ("C07.liouvillian", Qv.Drv.C07.liouvJ)
 ]
 
 def handle (line : String) : String :=
